@@ -53,25 +53,33 @@ ExpandTabs(l) == ConcatAll([i \in 1..Len(l) |-> IF l[i] = TAB THEN <<SP, SP, SP,
 CountTabs(l) == Cardinality({i \in 1..Len(l) : l[i] = TAB})
 IsAscii(l) == \A i \in 1..Len(l) : l[i] < 128
 
-NumCol(n) == LET ds == Digits(n) IN RepeatCh(SP, 7 - Len(ds)) \o ds \o <<SP, BAR>>
+\* the number column: the number right-aligned, a space and a bar, w characters wide in total ("fixed-width":
+\* the width itself is not stated by the property, it is read off the observed listing and must be the same everywhere)
+NumCol(n, w) == LET ds == Digits(n) IN RepeatCh(SP, w - 2 - Len(ds)) \o ds \o <<SP, BAR>>
 
-RECURSIVE CodeLines(_, _, _, _)
-CodeLines(t, br, k, last) ==
+RECURSIVE CodeLines(_, _, _, _, _)
+CodeLines(t, br, k, last, w) ==
   IF k > last THEN <<>>
-  ELSE NumCol(k) \o ExpandTabs(LineText(t, br, k)) \o <<NL>> \o CodeLines(t, br, k + 1, last)
+  ELSE NumCol(k, w) \o ExpandTabs(LineText(t, br, k)) \o <<NL>> \o CodeLines(t, br, k + 1, last, w)
+
+\* width of the number column of an observed block: characters of its second line up to and including the bar
+ObservedWidth(blk) ==
+  LET f == FindCh(blk, 1, NL)
+      bar == IF f = 0 THEN 0 ELSE FindCh(blk, f + 1, BAR)
+  IN IF bar = 0 THEN 0 ELSE bar - f
 
 \* the prefixes that decide the marker columns
 StartPrefix(t, br, r) == Slice(t, LineS(br, LineOf(br, r[1])), r[1])
 EndPrefix(t, br, r)   == Slice(t, LineS(br, LineOf(br, r[2] - 1)), r[2])
 
-RenderItem(t, br, r) ==
+RenderItem(t, br, r, w) ==
   LET p1 == StartPrefix(t, br, r)
       p2 == EndPrefix(t, br, r)
       t1 == CountTabs(p1)
       t2 == CountTabs(p2)
-  IN RepeatCh(SP, 4 * t1) \o RepeatCh(SP, 9 + Len(p1) - t1) \o Str_start \o <<NL>>
-     \o CodeLines(t, br, LineOf(br, r[1]), LineOf(br, r[2] - 1))
-     \o RepeatCh(SP, 4 * t2) \o RepeatCh(SP, 8 + Len(p2) - t2) \o Str_end
+  IN RepeatCh(SP, 4 * t1) \o RepeatCh(SP, w + Len(p1) - t1) \o Str_start \o <<NL>>
+     \o CodeLines(t, br, LineOf(br, r[1]), LineOf(br, r[2] - 1), w)
+     \o RepeatCh(SP, 4 * t2) \o RepeatCh(SP, w - 1 + Len(p2) - t2) \o Str_end
 
 \* the part of a rendered block between the two marker lines
 MiddleOf(blk) ==
@@ -89,16 +97,24 @@ ColumnsDetermined(t, br, r) ==
 (* ESC[33m and ESC[0m, segments joined by line breaks.                     *)
 (***************************************************************************)
 ESC == 27
-IsColorStart(b, i) == i + 4 <= Len(b) /\ b[i] = ESC /\ b[i + 1] = 91 /\ b[i + 2] = 51 /\ b[i + 3] \in {49, 51} /\ b[i + 4] = 109
-IsReset(b, i)      == i + 3 <= Len(b) /\ b[i] = ESC /\ b[i + 1] = 91 /\ b[i + 2] = 48 /\ b[i + 3] = 109
+\* an SGR sequence ESC [ digits m starting at i: returns its length, 0 if none; reset = all digits are '0'
+RECURSIVE DigitsEnd(_, _)
+DigitsEnd(b, i) == IF i <= Len(b) /\ b[i] >= 48 /\ b[i] <= 57 THEN DigitsEnd(b, i + 1) ELSE i
+SgrLen(b, i) == IF i + 2 <= Len(b) /\ b[i] = ESC /\ b[i + 1] = 91
+                THEN LET e == DigitsEnd(b, i + 2) IN IF e > i + 2 /\ e <= Len(b) /\ b[e] = 109 THEN e - i + 1 ELSE 0
+                ELSE 0
+SgrIsReset(b, i) == \A k \in (i + 2)..(i + SgrLen(b, i) - 2) : b[k] = 48
 
+\* the colours themselves are not part of any property: any non-reset SGR sequence opens a highlighted segment
 RECURSIVE HighlightScan(_, _, _, _, _)
 HighlightScan(b, i, inside, cur, acc) ==
   IF i > Len(b) THEN acc
-  ELSE IF ~inside /\ IsColorStart(b, i) THEN HighlightScan(b, i + 5, TRUE, <<>>, acc)
-  ELSE IF inside /\ IsReset(b, i) THEN HighlightScan(b, i + 4, FALSE, <<>>, Append(acc, cur))
-  ELSE IF inside THEN HighlightScan(b, i + 1, TRUE, Append(cur, b[i]), acc)
-  ELSE HighlightScan(b, i + 1, FALSE, cur, acc)
+  ELSE LET n == SgrLen(b, i) IN
+       IF n > 0 /\ ~inside /\ ~SgrIsReset(b, i) THEN HighlightScan(b, i + n, TRUE, <<>>, acc)
+       ELSE IF n > 0 /\ inside /\ SgrIsReset(b, i) THEN HighlightScan(b, i + n, FALSE, <<>>, Append(acc, cur))
+       ELSE IF n > 0 THEN HighlightScan(b, i + n, inside, cur, acc)
+       ELSE IF inside THEN HighlightScan(b, i + 1, TRUE, Append(cur, b[i]), acc)
+       ELSE HighlightScan(b, i + 1, FALSE, cur, acc)
 
 RECURSIVE JoinNL(_)
 JoinNL(ss) == IF ss = <<>> THEN <<>> ELSE IF Len(ss) = 1 THEN ss[1] ELSE ss[1] \o <<NL>> \o JoinNL(Tail(ss))
